@@ -420,13 +420,19 @@ fn gen_sched(prop: &str, case: &mut Case, w: &mut Rng, k: &mut Rng, knobs: &mut 
                         Stmt::CreateTable(simple_table(&t, w.chance(1, 2)))
                     } else if x < 22 {
                         Stmt::DropTable { name: t }
-                    } else if x < 55 {
+                    } else if x < 50 {
                         let cnt = 1 + w.usize(4);
                         Stmt::Insert {
                             table: t,
                             cols: vec![],
                             rows: fresh_rows(w, &mut next, cnt),
                         }
+                    } else if x < 55 {
+                        // an INSERT of several chunks (one per row-set of its source): with a
+                        // small row-set size it writes several row-sets, which must become
+                        // visible together
+                        let from = names[w.usize(names.len())].clone();
+                        Stmt::InsertSelect { table: t, from, pred: Pred::default() }
                     } else if x < 80 {
                         Stmt::Delete {
                             table: t,
